@@ -20,9 +20,10 @@ def main():
     os.rmdir(wt)
     subprocess.run(["git", "-C", "/repo", "worktree", "add", "--detach", wt, "HEAD"], check=True, capture_output=True)
     try:
-        r = subprocess.run(["git", "-C", wt, "apply", "--3way", os.path.join(sdir, "patch.diff")], capture_output=True, text=True)
-        if r.returncode != 0:
-            r = subprocess.run(["git", "-C", wt, "apply", os.path.join(sdir, "patch.diff")], capture_output=True, text=True)
+        pf = os.path.join(sdir, "patch.rebased.diff")
+        if not os.path.exists(pf):
+            pf = os.path.join(sdir, "patch.diff")
+        r = subprocess.run(["git", "-C", wt, "apply", pf], capture_output=True, text=True)
         if r.returncode != 0:
             print("%s: PATCH DOES NOT APPLY to current HEAD: %s" % (sid, r.stderr.strip()[:300]))
             return 2
